@@ -3,7 +3,7 @@
 cd /verif
 for d in seeded/C*/; do
   id=$(basename $d); p=${id:0:3}
-  out=$(lib/seedtest.sh $d/patch.diff $p 2>&1)
+  out=$(lib/seedtest.sh /verif/${d}patch.diff $p 2>&1)
   n=$(echo "$out" | grep -c "^VIOLATION")
   nf=$(echo "$out" | grep -c "no-failing-input-found")
   why=$(echo "$out" | grep -m1 "violation (" | sed 's/.*violation (\([a-z]*\)): //' | cut -c1-110)
